@@ -128,6 +128,9 @@ SVREF = T.Ref("KnownStackValue")
 c = contract(F + "_get_asserted_fee", params={"self": T.Ref("FeeField"), "key": T.Str, "ins_stack_value": SVREF},
              returns=T.Tuple(T.Rec("FeeValue"), T.Rec("FeeValue")), ghost={"v": T.Abs("Visit")},
              touch=["ins_stack_value"], tags=["C09", "C01", "C03"])
+from spec.keys import valid_key, key_base
+import contracts.key_helpers  # noqa: F401
+requires(c, "valid_key", lambda key: And(valid_key(key), Eq(key_base(key), "Fee")))
 ensures(c, "wf", lambda result: And(wf_fee(result[0]), wf_fee(result[1])))
 ensures(c, "true_sound", lambda key, ins_stack_value, result, v:
         Implies(And(keydef(v, key), u64(keyfld(v, key)), ev(v, ins_stack_value) != 0),
